@@ -77,6 +77,7 @@ const (
 	VDropTable   = "DROP TABLE"
 	VDropView    = "DROP VIEW"
 	VRename      = "RENAME TABLE"
+	VExchange    = "EXCHANGE TABLES"
 	VAlter       = "ALTER TABLE"
 	VInsert      = "INSERT"
 	VSelectVer   = "SELECT_VER"
@@ -750,6 +751,14 @@ func parseStmt(q string) (s *Stmt, err error) {
 				break
 			}
 		}
+		p.onCluster(s)
+	case p.kw("EXCHANGE", "TABLES"):
+		// EXCHANGE TABLES a AND b [ON CLUSTER c]: the two names swap their objects atomically
+		s.Verb = VExchange
+		a := p.qname()
+		p.expectKw("AND")
+		b := p.qname()
+		s.Renames = append(s.Renames, [2]QName{a, b})
 		p.onCluster(s)
 	case p.kw("ALTER", "TABLE"):
 		p.alter(s)
